@@ -36,11 +36,31 @@ class PtypeHooks(Hooks):
             self.pre = ('prop', None, w, None, it.dig(w), str(w.ptype))
 
     def after(self, it, i, ev, out):
+        if ev['fn'] == 'Wavefront' and out.ok:
+            # the start of every program: a new wavefront has the type it was given, none when it was given none
+            given = ev.get('k', {}).get('ptype')
+            want = 'none' if given is None else str(given)
+            it.probe('check:constructor')
+            if sorted(ev.get('k', {})) not in ([], ['ptype']):
+                it.probe('wavefront_constructor_arguments')
+            if str(out.value.ptype) != want:
+                it.violate('C08.table', {'what': 'constructor-type', 'expected': want, 'got': str(out.value.ptype),
+                                         'kw': ','.join(sorted(ev.get('k', {})))},
+                           'Wavefront(%s) has type %s, expected %s' % (', '.join(sorted(ev.get('k', {}))), out.value.ptype, want), i)
+        if ev['fn'] == 'deepcopy' and out.ok and hasattr(out.value, 'ptype'):
+            src = it.resolve(ev['a'][0])
+            if str(out.value.ptype) != str(src.ptype):
+                it.violate('C08.table', {'what': 'copy-type', 'expected': str(src.ptype), 'got': str(out.value.ptype)},
+                           'a copy of a %s wavefront has type %s' % (src.ptype, out.value.ptype), i)
         if self.pre is None:
             return
         kind, p, w, dp, dw, wt = self.pre
         fn = ev['fn']
         tag = ev.get('t', {})
+        if wt not in WTYPES or (kind == 'mul' and str(p.ptype) not in PTYPES):
+            it.violate('C08.table', {'what': 'unknown-type', 'w': wt, 'p': str(p.ptype) if p is not None else '-'},
+                       'operand carries a type outside the documented ones: wavefront %s, plane %s' % (wt, p.ptype if p is not None else '-'), i)
+            return
         got = str(out.value.ptype) if out.ok and hasattr(out.value, 'ptype') else (
             'ok-without-ptype' if out.ok else type(out.exc).__name__)
         if kind == 'mul':
@@ -133,7 +153,8 @@ class PtypeScenario(Scenario):
         props = ['prop:%s' % w for w in WTYPES]
         self.must_hit = cells + props + ['refuse_after_transition', 'class:Pupilxnone', 'class:Pupilxpupil',
                                          'class:Imagexnone', 'class:Imageximage', 'class:Tiltxpupil', 'class:Tiltximage',
-                                         'class:DispersiveTiltxpupil', 'class:Rotatexpupil', 'class:Flipxpupil', 'explicit_ptype_kw']
+                                         'class:DispersiveTiltxpupil', 'class:Rotatexpupil', 'class:Flipxpupil', 'explicit_ptype_kw',
+                                         'wavefront_constructor_arguments']
         self.probe_names = self.must_hit + ['coldwarm_audit']
 
     @property
@@ -173,6 +194,8 @@ class PtypeScenario(Scenario):
             add('Plane', 'g_' + pt, k={'ptype': pt})
         add('Pupil', 'PUP', k={'amplitude': '@a0', 'opd': '@o0', 'pixelscale': ph['dx'], 'focal_length': ph['f']})
         add('Pupil', 'PUPS', k={'focal_length': ph['f']})
+        add('Pupil', 'PUP2', k={'amplitude': '@a0', 'pixelscale': ph['dx'], 'focal_length': ph['f'] * 1.5})
+        add('Pupil', 'PUPS2', k={'focal_length': ph['f'] * 0.75})
         add('Image', 'IMG', k={})
         add('Image', 'IMGA', k={'amplitude': '@a1'})
         add('Plane', 'PLN', k={'amplitude': '@a0', 'pixelscale': ph['dx']})
@@ -188,6 +211,12 @@ class PtypeScenario(Scenario):
         add('Wavefront', 'w_none', a=[ph['wl']])
         add('Wavefront', 'w_pupil', a=[ph['wl']], k={'ptype': 'pupil'})
         add('Wavefront', 'w_image', a=[ph['wl']], k={'ptype': 'image'})
+        # every constructor argument: a wavefront's type is what it was given (none when nothing was given), whatever else it carries
+        add('Wavefront', 'w_none_f', a=[ph['wl']], k={'focal_length': ph['f'] * 2})
+        add('Wavefront', 'w_none_px', a=[ph['wl']], k={'pixelscale': ph['dx'], 'diameter': 1.0, 'ptype': None})
+        add('Wavefront', 'w_none_t', a=[ph['wl']], k={'tilt': [1e-6, -2e-6], 'ptype': 'none'})
+        add('Wavefront', 'w_pupil_f', a=[ph['wl']], k={'ptype': 'pupil', 'focal_length': ph['f'] * 0.5, 'pixelscale': ph['dx']})
+        add('Wavefront', 'w_image_f', a=[ph['wl']], k={'ptype': 'image', 'focal_length': ph['f']})
         return ev
 
     def plane_models(self, world):
@@ -201,6 +230,8 @@ class PtypeScenario(Scenario):
             P['g_' + pt] = {'pt': pt, 'px': None, 'arr': False, 'shape': (), 'fl': None, 'tilt': False}
         P['PUP'] = {'pt': cls['Pupil'], 'px': dx, 'arr': True, 'shape': S0, 'fl': ph['f'], 'tilt': False, 'pupil': True}
         P['PUPS'] = {'pt': cls['Pupil'], 'px': None, 'arr': False, 'shape': (), 'fl': ph['f'], 'tilt': False, 'pupil': True}
+        P['PUP2'] = {'pt': cls['Pupil'], 'px': dx, 'arr': True, 'shape': S0, 'fl': ph['f'] * 1.5, 'tilt': False, 'pupil': True}
+        P['PUPS2'] = {'pt': cls['Pupil'], 'px': None, 'arr': False, 'shape': (), 'fl': ph['f'] * 0.75, 'tilt': False, 'pupil': True}
         P['IMG'] = {'pt': cls['Image'], 'px': None, 'arr': False, 'shape': (), 'fl': None, 'tilt': False}
         P['IMGA'] = {'pt': cls['Image'], 'px': None, 'arr': True, 'shape': S1, 'fl': None, 'tilt': False}
         P['PLN'] = {'pt': 'none', 'px': dx, 'arr': True, 'shape': S0, 'fl': None, 'tilt': False}
@@ -215,12 +246,20 @@ class PtypeScenario(Scenario):
         P['LA'] = {'pt': 'none', 'px': None, 'arr': False, 'shape': (), 'fl': None, 'tilt': False}
         return P
 
-    @staticmethod
-    def wf_models():
+    def wf_models(self, world=None):
         inf = float('inf')
-        return [{'id': 'w_none', 't': 'none', 'px': None, 'fl': inf, 'arr': False, 'tilt': False, 'shape': ()},
+        base = [{'id': 'w_none', 't': 'none', 'px': None, 'fl': inf, 'arr': False, 'tilt': False, 'shape': ()},
                 {'id': 'w_pupil', 't': 'pupil', 'px': None, 'fl': inf, 'arr': False, 'tilt': False, 'shape': ()},
                 {'id': 'w_image', 't': 'image', 'px': None, 'fl': inf, 'arr': False, 'tilt': False, 'shape': ()}]
+        if world is None:
+            return base
+        ph = world['phys']
+        dx = (ph['dx'], ph['dx'])
+        return base + [{'id': 'w_none_f', 't': 'none', 'px': None, 'fl': ph['f'] * 2, 'arr': False, 'tilt': False, 'shape': ()},
+                       {'id': 'w_none_px', 't': 'none', 'px': dx, 'fl': inf, 'arr': False, 'tilt': False, 'shape': ()},
+                       {'id': 'w_none_t', 't': 'none', 'px': None, 'fl': inf, 'arr': False, 'tilt': True, 'shape': ()},
+                       {'id': 'w_pupil_f', 't': 'pupil', 'px': dx, 'fl': ph['f'] * 0.5, 'arr': False, 'tilt': False, 'shape': ()},
+                       {'id': 'w_image_f', 't': 'image', 'px': None, 'fl': ph['f'], 'arr': False, 'tilt': False, 'shape': ()}]
 
     # ---------------------------------------------------------------- model steps
     def mul_model(self, w, pid, p, new_id):
@@ -248,6 +287,8 @@ class PtypeScenario(Scenario):
         inf = float('inf')
         can = w['arr'] and w['px'] is not None and w['fl'] != inf and w['t'] in ('pupil', 'image')
         method = method or rng.choice(['propagate_dft', 'propagate_dft', 'propagate_fft'])
+        if method == 'propagate_fft' and w['fl'] not in (inf, ph['f']) and w['arr']:
+            method = 'propagate_dft'        # the abstract model knows the FFT grid only for the session's own focal length
         if w['arr'] and w['px'] is not None and w['fl'] == inf and w['t'] == 'pupil' and method == 'propagate_dft' and not w['tilt']:
             # no focal length was ever handed over (plane wave): the DFT propagator still accepts a pupil wavefront
             os_ = rng.choice([1, 2])
@@ -304,7 +345,8 @@ class PtypeScenario(Scenario):
         progs = []
         refuse_rate = rng.choice([0.1, 0.2, 0.35])
         for c in range(K):
-            ws = self.wf_models()
+            ws = self.wf_models(world)
+            rng.shuffle(ws)
             prog = []
             nsteps = rng.randint(3, 12)
             counter = 0
@@ -397,9 +439,11 @@ class PtypeScenario(Scenario):
         P = self.plane_models(world)
         n = 0
         # every cell of the table with generic planes, every class on every seed wavefront
-        for w in self.wf_models():
+        for w in self.wf_models(world):
             for pid in sorted(P):
                 n += 1
+                if not self.px_ok(w, P[pid]):
+                    continue
                 events.append({'c': 0, 'fn': ['Plane.multiply', 'w*p', 'p*w', 'w*=p'][n % 4],
                                'a': (['@' + w['id'], '@' + pid] if n % 4 in (1, 3) else ['@' + pid, '@' + w['id']]),
                                'id': 'r%d' % n})
@@ -436,6 +480,14 @@ class PtypeScenario(Scenario):
             events.append({'c': 0, 'fn': 'deepcopy', 'a': ['@' + res['id']], 'id': 'cic_' + meth, 't': {'copy': True}})
             ev2, _ = self.prop_event(rng, world, 0, dict(res, id='cic_' + meth), 'cpu_' + meth, method='propagate_dft')
             events.append(ev2)
+        # a wavefront that already carries a focal length meets pupils with other focal lengths, then propagates
+        events.append({'c': 0, 'fn': 'Plane.multiply', 'a': ['@PUP2', '@pu'], 'id': 'pu2'})
+        events.append({'c': 0, 'fn': 'w*p', 'a': ['@pu2', '@PUPS2'], 'id': 'pu3'})
+        m3 = self.mul_model(self.mul_model(m, 'PUP2', P['PUP2'], 'pu2'), 'PUPS2', P['PUPS2'], 'pu3')
+        ev, _ = self.prop_event(rng, world, 0, m3, 'pu3_im', method='propagate_dft')
+        events.append(ev)
+        events.append({'c': 0, 'fn': 'Plane.multiply', 'a': ['@PUP', '@w_none_f'], 'id': 'pf'})
+        events.append({'c': 0, 'fn': 'Plane.multiply', 'a': ['@PUP', '@w_pupil_f'], 'id': 'pf2'})
         for pid in ('TLTP', 'DSPI'):
             for w in self.wf_models():
                 n += 1
